@@ -38,6 +38,7 @@ class UnitBuilder:
         self.repo = repo
         self.canary = canary   # None | 'fn' | 'loop'
         self.canaries = []
+        self.stubs = []
         self.sources = {}
         self.items = []      # evidence: dicts
         self.clauses = 0     # number of spliced contract clauses
@@ -224,6 +225,11 @@ class UnitBuilder:
                 anchor, body = d[1]
                 pos = self._anchor(fn, loops, anchor, name)
                 fn.insert(pos, '\n' + body + '\n', order=1)
+        if any(d[0] == 'stub' for d in directives):
+            # callee stub: the body is dropped, only the contract is used by callers in this unit
+            fn.replace(fn.ob, fn.cb + 1, '{ unimplemented!() }')
+            fired.append('stub (body dropped; contract proved in its own unit)')
+            self.stubs.append(name)
         if sig_clauses:
             order = {'requires': 0, 'recommends': 0, 'ensures': 1, 'decreases': 2, 'no_unwind': 3}
             sig_clauses.sort(key=lambda x: order.get(x[0], 9))
@@ -234,7 +240,8 @@ class UnitBuilder:
                 order = {'invariant_except_break': 0, 'invariant': 1, 'ensures': 2, 'decreases': 3}
                 cl.sort(key=lambda x: order.get(x[0], 9))
                 fn.insert(ob, '\n' + ''.join('    %s\n%s\n' % (k, b) for k, b in cl))
-        if has_contract:
+        is_stub = any(d[0] == 'stub' for d in directives)
+        if has_contract and not is_stub:
             self.contracted.append(name)
             if self.canary == 'fn':
                 lab = 'fn:' + name.replace(' ', '_')
@@ -282,14 +289,20 @@ class UnitBuilder:
                     ds.append((k, text, cur_loop if k != 'requires' else None))
                 cur = None
 
+        expanded = []
         for ln in block:
+            if ln.strip().startswith('@include '):
+                expanded.extend(open(os.path.join(VERIF, ln.strip().split(None, 1)[1])).read().split('\n'))
+            else:
+                expanded.append(ln)
+        for ln in expanded:
             s = ln.strip()
             if s.startswith('@'):
                 flush()
                 parts = s[1:].split(None, 1)
                 k = parts[0]
                 arg = parts[1] if len(parts) > 1 else ''
-                if k in ('ret', 'sigcheck', 'attr', 'rename', 'rule', 'host'):
+                if k in ('ret', 'sigcheck', 'attr', 'rename', 'rule', 'host', 'stub'):
                     ds.append((k, arg))
                 elif k == 'loop':
                     a = arg.split()
